@@ -34,6 +34,25 @@ reg('C09', 'grid', 'exploration',
     '(score correctness itself is C01).',
     'bounded exhaustive enumeration of the input grid (explicit enumeration, no sampling)', 'DESIGN.md 3/C09')
 
+
+HJ_NOTE = ('Bounded: <=3-4 athletes, <=4 regular + <=3 jump-off heights (per-configuration bounds in the evidence). Trusts pickle round trips of the '
+           'competition object, and the reference model vlib/hjmodel.py as the reading of the rules (interpretations I1-I6 in DESIGN.md).')
+reg('C02', 'hjmc', 'model_checking',
+    'Explicit-state BFS over the real HighJumpCompetition object: every reachable state within the bounds x every call of the alphabet (legal or not) is '
+    'executed on a clone; refusals are checked for exception type and for leaving the complete reflected object state untouched, acceptances are '
+    'compared in lock-step with a rule reference model (accept/refuse, cards, phase), state order is monitored on every transition.',
+    HJ_NOTE, 'explicit-state model checking of the implementation (BFS over real object states, lock-step reference model)', 'DESIGN.md 2.1, 3/C02')
+reg('C03', 'hjmc', 'model_checking',
+    'Places, bests and ranking shape recomputed from the result cards alone on every terminal state of the BFS, plus a round-structured exhaustive '
+    'enumeration of complete competitions (every legal attempt string per athlete per height, every rule-conforming jump-off continuation with the '
+    'bar raised, repeated or lowered) and a tie-focused enumeration that reaches 3-4 athlete jump-offs of 2-3 heights.',
+    HJ_NOTE, 'explicit-state model checking + exhaustive bounded enumeration of complete competitions on the real object', 'DESIGN.md 2.1, 3/C03')
+reg('C08', 'hjmc', 'model_checking',
+    'On every state reached by the BFS: the action log replays to an equal observable snapshot, the exported card re-imports to the same state, bests '
+    'and places, and all reached states sharing a result card (exactly the order-preserving interleavings of each other) are required to have one '
+    'observable snapshot and one set of accepted calls - order independence as a state-space invariant, no sampling of interleavings.',
+    HJ_NOTE, 'explicit-state model checking of the implementation (state-graph invariant over all interleavings)', 'DESIGN.md 2.1, 3/C08')
+
 ALL = ['C%02d' % i for i in range(1, 20)]
 PENDING_REASON = 'check not yet built in this session (planned, see DESIGN.md section 7); not claimed until it runs clean'
 
